@@ -1,62 +1,114 @@
 //! Property-based verification harness for saveoursecrets/sdk.
+//!
+//! Feature `codec-only` (used by the cargo-fuzz crate `/verif/fuzz`) compiles only engine E
+//! (C14 / C15) and the framework: the libFuzzer targets need nothing else and the rest of the
+//! crate takes ten minutes to build under ASan + coverage instrumentation.
 pub mod framework;
+#[cfg(not(feature = "codec-only"))]
 pub mod secrets;
 pub mod alloc_count;
 pub mod engine_codec;
+pub mod fuzz;
+#[cfg(not(feature = "codec-only"))]
 pub mod engine_acct;
+#[cfg(not(feature = "codec-only"))]
 pub mod engine_evlog;
+#[cfg(not(feature = "codec-only"))]
 pub mod engine_files;
+#[cfg(not(feature = "codec-only"))]
 pub mod engine_http;
+#[cfg(not(feature = "codec-only"))]
 pub mod engine_scan;
+#[cfg(not(feature = "codec-only"))]
 pub mod engine_sync;
+#[cfg(not(feature = "codec-only"))]
 pub mod prop_c01;
+#[cfg(not(feature = "codec-only"))]
 pub mod prop_c02;
+#[cfg(not(feature = "codec-only"))]
 pub mod prop_c03;
+#[cfg(not(feature = "codec-only"))]
 pub mod prop_c04;
+#[cfg(not(feature = "codec-only"))]
 pub mod prop_c05;
+#[cfg(not(feature = "codec-only"))]
 pub mod prop_c06;
+#[cfg(not(feature = "codec-only"))]
 pub mod prop_c07;
+#[cfg(not(feature = "codec-only"))]
 pub mod prop_c07_patch;
+#[cfg(not(feature = "codec-only"))]
 pub mod prop_c08;
+#[cfg(not(feature = "codec-only"))]
 pub mod prop_c08_scan;
+#[cfg(not(feature = "codec-only"))]
 pub mod prop_c09;
+#[cfg(not(feature = "codec-only"))]
 pub mod prop_c10;
+#[cfg(not(feature = "codec-only"))]
 pub mod prop_c10_hist;
+#[cfg(not(feature = "codec-only"))]
 pub mod prop_c11;
+#[cfg(not(feature = "codec-only"))]
 pub mod prop_c12;
+#[cfg(not(feature = "codec-only"))]
 pub mod prop_c13;
 pub mod prop_c14;
 pub mod prop_c15;
+#[cfg(not(feature = "codec-only"))]
 pub mod prop_c20;
+#[cfg(not(feature = "codec-only"))]
 pub mod prop_merge;
+#[cfg(not(feature = "codec-only"))]
 pub mod prop_c16;
+#[cfg(not(feature = "codec-only"))]
 pub mod prop_c18;
+#[cfg(not(feature = "codec-only"))]
 pub mod prop_c17;
+#[cfg(not(feature = "codec-only"))]
 pub mod prop_c19;
 
 use framework::PropertyDef;
 
 pub fn registry() -> Vec<PropertyDef> {
     vec![
+        #[cfg(not(feature = "codec-only"))]
         prop_c01::def(),
+        #[cfg(not(feature = "codec-only"))]
         prop_c02::def(),
+        #[cfg(not(feature = "codec-only"))]
         prop_c03::def(),
+        #[cfg(not(feature = "codec-only"))]
         prop_c04::def(),
+        #[cfg(not(feature = "codec-only"))]
         prop_c05::def(),
+        #[cfg(not(feature = "codec-only"))]
         prop_c06::def(),
+        #[cfg(not(feature = "codec-only"))]
         prop_c07::def(),
+        #[cfg(not(feature = "codec-only"))]
         prop_c08::def(),
+        #[cfg(not(feature = "codec-only"))]
         prop_c09::def(),
+        #[cfg(not(feature = "codec-only"))]
         prop_c10::def(),
+        #[cfg(not(feature = "codec-only"))]
         prop_c11::def(),
+        #[cfg(not(feature = "codec-only"))]
         prop_c12::def(),
+        #[cfg(not(feature = "codec-only"))]
         prop_c13::def(),
         prop_c14::def(),
         prop_c15::def(),
+        #[cfg(not(feature = "codec-only"))]
         prop_c20::def(),
+        #[cfg(not(feature = "codec-only"))]
         prop_c16::def(),
+        #[cfg(not(feature = "codec-only"))]
         prop_c18::def(),
+        #[cfg(not(feature = "codec-only"))]
         prop_c17::def(),
+        #[cfg(not(feature = "codec-only"))]
         prop_c19::def(),
     ]
 }
@@ -67,13 +119,19 @@ pub fn internal_mode(mode: &str, args: &[String]) -> i32 {
         // decoder worker of engine E (C15): requests on stdin, answers on stdout
         "codec-worker" => prop_c15::worker_main(),
         // crash engine (C13): re-executes a victim operation and is aborted at an armed probe
+        #[cfg(not(feature = "codec-only"))]
         "crash-child" => prop_c13::crash_child_main(args),
         // sensitivity self-test of the C14 oracles (mutant codecs, projection edits)
         "codec-selftest" => {
             framework::install_quiet_panic_hook();
             engine_codec::selftest() + prop_c15::selftest()
         }
+        // coverage-guided tier (tools/fuzz.sh): seed corpus for the libFuzzer targets
+        "fuzz-corpus" => fuzz::corpus_main(args),
+        // ... and conversion of a libFuzzer artifact into a replay file (re-executed without libFuzzer)
+        "fuzz-artifact" => fuzz::artifact_main(args),
         // C03 sensitivity: markers in folder names (stored in the clear) must be seen by the scanner
+        #[cfg(not(feature = "codec-only"))]
         "c03-sensitivity" => prop_c03::sensitivity_main(args),
         _ => {
             eprintln!("unknown mode {mode}");
